@@ -48,32 +48,6 @@ Fixpoint obss_eqb (xs ys : list obs) : bool :=
   end.
 
 (* ---- the guard (G1) followed along the model run: one flag per ORun ------------------------- *)
-Fixpoint guard_forms (n : nat) (st : state) (fs : list tform) : bool :=
-  match fs with
-  | [] => true
-  | TQuote _ :: r => guard_forms n st r
-  | TForm e :: r =>
-      match parse_defun e with
-      | Some (nm, ps, body) => g_defun st nm ps body && guard_forms n (defunM st nm ps body) r
-      | None => match evalM n st [] e with (Val _, st1) => guard_forms n st1 r | _ => true end
-      end
-  end.
-Fixpoint guard_defs (st : state) (fs : list tform) : bool :=
-  match fs with
-  | [] => true
-  | TForm e :: r =>
-      match parse_defun e with
-      | Some (nm, ps, body) => g_defun st nm ps body && guard_defs (defunM st nm ps body) r
-      | None => guard_defs st r
-      end
-  | _ :: r => guard_defs st r
-  end.
-Definition guard_op (n : nat) (m : mstate) (o : op) : bool :=
-  match o with
-  | OLoad _ _ => true
-  | OCompile cid => match nlookup cid (codes m) with Some fs => guard_defs (ms m) fs | None => true end
-  | ORun cid => match nlookup cid (codes m) with Some fs => guard_forms n (set_out (ms m) []) fs | None => true end
-  end.
 Fixpoint guards (n : nat) (m : mstate) (g : bool) (ops : list op) : list bool :=
   match ops with
   | [] => []
@@ -87,7 +61,8 @@ Fixpoint guards (n : nat) (m : mstate) (g : bool) (ops : list op) : list bool :=
 Fixpoint bad_count (gs : list bool) (ss xs : list obs) : nat :=
   match gs, ss, xs with
   | g :: gs', s :: ss', x :: xs' =>
-      (if g && comparable (fst s) && negb (obs_eqb s x) then 1 else 0) + bad_count gs' ss' xs'
+      (if g && ((comparable (fst s) && negb (obs_eqb s x)) || (negb (is_val (fst s)) && is_val (fst x))) then 1 else 0)
+      + bad_count gs' ss' xs'
   | _, _, _ => 0
   end.
 Fixpoint constrained (gs : list bool) (ss : list obs) : nat :=
